@@ -538,7 +538,8 @@ func (g *Gen) execInstr(in ssa.Instruction) error {
 	case *ssa.MakeInterface:
 		xv := g.val(x.X)
 		box, _ := g.st.boxFun(x.X.Type())
-		g.define(x, sx(box, xv.T))
+		nv := g.define(x, sx(box, xv.T))
+		nv.Boxed = xv
 	case *ssa.ChangeInterface:
 		g.define(x, g.val(x.X).T)
 	case *ssa.ChangeType:
